@@ -1,6 +1,8 @@
 package sim
 
 import (
+	"crypto/sha256"
+	"encoding/hex"
 	"encoding/json"
 	"fmt"
 	"os"
@@ -61,6 +63,19 @@ func RunOnceLogged(t *testing.T, sc *Scenario, tape *Tape, keepTrace bool, crash
 			}
 		}()
 		synctest.Test(t, func(t *testing.T) {
+			if sc.Store != nil {
+				sr := &storeRun{sc: sc, ss: sc.Store, tape: tape, CrashLog: crashLog, stats: Stats{Faults: map[string]int{}, Probes: map[string]int{}, AbstractSeen: map[string]bool{}}}
+				if err := sr.execute(); err != nil {
+					res.Err = err.Error()
+				}
+				res.Violations, res.Stats, res.Choices = sr.viol, sr.stats, sr.choices
+				h := sha256.Sum256([]byte(strings.Join(sr.trace, "\n")))
+				res.Hash = hex.EncodeToString(h[:8])
+				if keepTrace {
+					res.Trace = sr.trace
+				}
+				return
+			}
 			run := NewRun(sc, tape)
 			run.CrashLog = crashLog
 			if err := run.Execute(); err != nil {
@@ -191,6 +206,45 @@ func MinimiseWith(fails func(*Scenario, []uint32) bool, sc *Scenario, tape []uin
 					}
 					if try(cand, bestTape) {
 						best, improved = cand, true
+					}
+				}
+			}
+		}
+		if best.Store != nil {
+			for sv := len(best.Store.Savers) - 1; sv >= 0; sv-- {
+				if len(best.Store.Savers) > 1 {
+					cand := cloneScenario(best)
+					cand.Store.Savers = append(cand.Store.Savers[:sv], cand.Store.Savers[sv+1:]...)
+					if try(cand, bestTape) {
+						best, improved = cand, true
+						continue
+					}
+				}
+				for i := len(best.Store.Savers[sv]) - 1; i >= 0; i-- {
+					cand := cloneScenario(best)
+					cand.Store.Savers[sv] = append(cand.Store.Savers[sv][:i], cand.Store.Savers[sv][i+1:]...)
+					if try(cand, bestTape) {
+						best, improved = cand, true
+					}
+				}
+			}
+			for best.Store.Loaders > 0 {
+				cand := cloneScenario(best)
+				cand.Store.Loaders--
+				if !try(cand, bestTape) {
+					break
+				}
+				best, improved = cand, true
+			}
+			for sv := range best.Store.Savers {
+				for i := range best.Store.Savers[sv] {
+					if best.Store.Savers[sv][i].Pad > 0 || best.Store.Savers[sv][i].Jobs > 1 {
+						cand := cloneScenario(best)
+						cand.Store.Savers[sv][i].Pad = 0
+						cand.Store.Savers[sv][i].Jobs = 1
+						if try(cand, bestTape) {
+							best, improved = cand, true
+						}
 					}
 				}
 			}
